@@ -43,14 +43,14 @@ PLAN = {
         custom("C15:enumerations", _enumerations),
         replays("C15"), replays("C15_enum"),
         tape("C15_enum", 0, mode="ex", name="C15_enum:all-enumerators"),
-        tape("C15", 16000, size=300),
+        tape("C15", 20000, size=300),
         custom("C15:rule-coverage", _rule_coverage),
     ],
     "thorough": [
         custom("C15:enumerations", _enumerations),
         replays("C15"), replays("C15_enum"),
         tape("C15_enum", 0, mode="ex", name="C15_enum:all-enumerators"),
-        tape("C15", 250000, size=400),
+        tape("C15", 400000, size=400),
         custom("C15:rule-coverage", _rule_coverage),
     ],
     "class_floors": {
@@ -65,7 +65,7 @@ PLAN = {
 CLAIM = {
     "engine": "rapidcheck-tape + exhaustive enumeration of the ReferenceRule / CellmlElementType enumerators",
     "technique": "property-based testing of a mixed stream of service calls (six services, faulted inputs, import fault scenarios with real files) with a structural invariant on the issue list after every call and a 'failure is explained' rule, plus an exhaustive sweep over every enumerator listed from the headers at build time",
-    "text": "Each random case drives one service through a short history: Parser (almost-valid 2.0, CellML 1.x, garbage; strict and permissive on the same parser), Validator (valid generated models with 1-3 of 36 spec-level faults: identifiers, duplicate names/ids, dangling references, interfaces, broken MathML in components and resets, cyclic units, imports), "
+    "text": "Each random case drives one service through a short history: Parser (almost-valid 2.0, CellML 1.x, garbage; strict and permissive on the same parser), Validator (valid generated models with 1-3 of ~35 spec-level faults: identifiers, duplicate names/ids, dangling references, interfaces, broken MathML in components and resets, cyclic units, imports), "
             "Analyser (12 constraint variants of ground-truth models: dropped equation / initial value, second definition, several or initialised VOI, non-first-order ODE, non-equality, unlinked units, validation failure, null model; units-mismatch equations; external variables on VOI / other model / non-primary / null), "
             "Importer strict and permissive (missing files, base path in a missing directory, in-memory library, files that are empty / not XML / not CellML / CellML 1.x / carry related and unrelated parser errors = the removeError path, nested imports and cycles, null model, reuse), Printer (broken math in components and resets), "
             "Annotator (no / null / destroyed model, unknown, duplicate and wrong-type identifiers, null / inconsistent / foreign items). After EVERY call: issueCount = errors+warnings+messages, per-level accessors enumerate exactly the issues of their level in order, indices at and far beyond the counts give null, "
